@@ -174,6 +174,8 @@ def kc_directed(rng):
                 for a in ARGS[n]:
                     if a in ('X', 'X0') and nbfl == 0: continue
                     out.append(([42, dual, kc_setup(D, bayes, skip=[n]) + [kc_set(D, n, drop=[a]), [20, g], [20, g]]], 'drop:' + a))
+            if nbfl > 0 and g == 0:   # the drift is removed again: the object is back to simple kriging
+                out.append(([42, dual, base + [kc_set(D, 'setLHS', drop=['X']), kc_set(D, 'setRHS', drop=['X0']), [20, 0]]], 'dropX+X0'))
             if ncck > 0:     # colocation switched off by a null argument
                 out.append(([42, dual, base + [kc_set(D, 'setColCokUnique', drop=['Zp']), [20, g]]], 'colcok-off'))
                 if g == 9: out.append(([42, dual, base + [kc_set(D, 'setColCokUnique', drop=['Zp']), [20, 9], [20, 10]]], 'colcok-off'))
@@ -362,10 +364,19 @@ def kc_explain(case, recs, gi, mrecs, meta, tab, fail_keys):
         # the object keeps something (a dimension, a flag, a pointer) that no sequence of calls on a fresh object reproduces
         diff = [KC_PARAMS[i] for i in range(len(KC_PARAMS)) if rec['fpar'][i] != rec['par'][i]] + \
                [KC_INPUTS[i] for i in range(len(KC_INPUTS)) if rec['fids'][i] != rec['ids'][i]]
-        last = None
-        for i in range(gi - 1, -1, -1):
-            if case[2][i][0] != 20: last = KC_SETOPS.get(case[2][i][0]) or KC_RESETS[case[2][i][1]]; break
-        return 'KrigingCalcul:%s-keeps%s' % (last, ''.join('-' + d[1:] for d in diff)), '%s left behind by earlier calls differ from those of a fresh object' % diff, []
+        # the call that left it behind: the last earlier set* that may write the first differing member
+        last = None; mine = diff
+        for d in diff:
+            for i in range(gi - 1, -1, -1):
+                op = case[2][i]
+                if op[0] in KC_SETOPS:
+                    info = tab['setter_info'][KC_SETOPS[op[0]]]
+                    if d in info['writes'] or d in info['dims']:
+                        last = KC_SETOPS[op[0]]; mine = [x for x in diff if x in info['writes'] or x in info['dims']]; break
+            if last: break
+        if all(d in ('_neq', '_nbfl', '_nrhs') for d in mine):     # whichever of setLHS/setRHS came last: the dimension is never given back
+            return 'KrigingCalcul:dimension%s-kept-after-input-removed' % ''.join('-' + d[1:] for d in mine), '%s left behind by earlier calls differ from those of a fresh object' % diff, []
+        return 'KrigingCalcul:%s-keeps%s' % (last or 'history', ''.join('-' + d[1:] for d in mine)), '%s left behind by earlier calls differ from those of a fresh object' % diff, []
     return None, 'not explained by the model', []
 
 def carrier_kc(ctx, runner, exe):
